@@ -59,6 +59,18 @@ def doomed (s : Store) (id : Nat) : List Nat := closure s.unmined s.unmined.leng
 def removeWithDescendants (s : Store) (id : Nat) : Store :=
   { s with unmined := s.unmined.filter fun u => !(doomed s id).contains u.id }
 
+/-- `removeConflict` transcribed literally: depth-first over the unconfirmed spenders of the record's outputs
+(`fetchUnminedInputSpendTxHashes`, read before recursing; a spender already removed by an earlier branch is skipped:
+`existsRawUnmined == nil`), the record itself deleted last.  `fuel` bounds the recursion depth.  The theorems are
+stated about `removeWithDescendants` (the descendant closure); the driver evaluates both on every store it meets and
+answers `model-mismatch` if they ever differ. -/
+def removeConflictDFS : Nat → Store → Nat → Store
+  | 0, s, _ => s
+  | fuel + 1, s, id =>
+    let spenders := s.unmined.filter (·.spends id)
+    let s1 := spenders.foldl (fun s sp => if s.has sp.id then removeConflictDFS fuel s sp.id else s) s
+    { s1 with unmined := s1.unmined.filter (·.id != id) }
+
 /-! ## chain/errors.go -/
 
 inductive Class | inMempool | alreadyKnown | alreadyConfirmed | other
